@@ -486,6 +486,14 @@ def run(ctx):
     small = dict(kind="HTTP/1.1", code=200, reason="OK", headers=[("Content-Type", "application/hap+json")], framing="cl", body=b'{"characteristics":[{"aid":1,"iid":9,"value":true}]}')
     smallc = dict(kind="HTTP/1.1", code=200, reason="OK", headers=[], framing="chunked", body=b"ab\r\n0\r\n\r\ncd", chunks=[2, 3])
     nobody = dict(kind="HTTP/1.1", code=204, reason="No Content", headers=[], framing="none")
+    # the status code does not decide where a message ends - the framing headers the accessory sent do: 204 / 304 / 1xx replies that carry a
+    # (chunked, possibly empty; or length-prefixed) body all the same, each followed by an event
+    for code, reason in ((204, "No Content"), (304, "Not Modified"), (100, "Continue"), (207, "Multi-Status"), (404, "Not Found")):
+        odd = dict(kind="HTTP/1.1", code=code, reason=reason, headers=[])
+        for fr in (dict(framing="chunked", body=b"ab", chunks=[2]), dict(framing="chunked", body=b"", chunks=[]), dict(framing="cl", body=b"xyz"), dict(framing="chunked", body=b"abcdefgh", chunks=[3, 5])):
+            work.append(("graph", {"seq": [dict(odd, **fr), ev]}))
+            if code in (204, 304):
+                work.append(("graph", {"seq": [ev, dict(odd, **fr), dict(odd, **fr), small]}))
     work.append(("secure", {"mode": "graph", "seq": [small, ev], "sizes": [40]}))
     work.append(("secure", {"mode": "graph", "seq": [nobody, smallc, nobody], "sizes": [9]}))
     work.append(("secure", {"mode": "cuts", "seq": [big, ev, bigc], "sizes": [1024]}))
